@@ -932,6 +932,14 @@ def main(pid, rep=None, finish=True):
                     confirmed = bool(valid and datas and max(datas) >= need and "PeerDisconnect" not in acts_ and "TimerFire" not in acts_
                                      and last.get("wire") and (last.get("h", 0) + last.get("u", 0)) == 0
                                      and not last.get("busy") and last.get("mw", 0) >= len(c_["mw"]))
+                    if not confirmed and s_["crlf"] and s_["cls"] in ("badUrl", "badUtf8") and s_["lineLen"] + 2 <= 1024:
+                        # the other half of C08: a line that is not a valid request is refused with 59 - not answered with
+                        # something else, and not left without any answer (whole line delivered, nobody disconnected, no
+                        # timer fired, nothing pending)
+                        w_ = last.get("wire") or []
+                        st0 = (w_[0][0] if isinstance(w_[0], (list, tuple)) else w_[0].get("st")) if w_ else None
+                        confirmed = bool(datas and max(datas) >= s_["lineLen"] + 2 and "PeerDisconnect" not in acts_ and "TimerFire" not in acts_
+                                         and not last.get("busy") and st0 != 59)
                 if not confirmed:
                     bad.discard("SegIndep")
                     bad.add("SegIndep(reference outcome differs)")
